@@ -38,6 +38,10 @@ type c32Input struct {
 	BS      int       `json:"bs"`
 	Pattern string    `json:"pattern"`
 	Items   []aggItem `json:"items"`
+	// Order: the order in which Aggregate is called (entry Order[k] with idx Order[k]); nil = ascending.
+	// Concurrent: one goroutine per batch (as ValidateTransactions does), each in the given order.
+	Order      []int `json:"order,omitempty"`
+	Concurrent bool  `json:"concurrent,omitempty"`
 }
 
 var (
@@ -67,18 +71,77 @@ func setBatchSize(c *chain.Chain, bs int) {
 // code: Verify's own answer (ok && err == nil); callerCode: what VerifyTickets / ValidateTransactions
 // make of it (they look at err only and ignore the bool).
 func aggDirect(w *world, items []aggItem, bs int) (code, callerCode int) {
+	return aggDirectOrder(w, items, bs, nil, false)
+}
+
+func aggDirectOrder(w *world, items []aggItem, bs int, order []int, concurrent bool) (code, callerCode int) {
+	if len(order) != len(items) {
+		order = make([]int, len(items))
+		for i := range order {
+			order[i] = i
+		}
+	}
 	pn := safely(func() {
 		agg := encryption.GetAggregateSignatureScheme(encryption.SignatureSchemeBls0chain, len(items), bs)
-		for i, it := range items {
-			ss, err := w.verifierShared(it.Key)
+		// realise everything first (scheme objects, hex strings) so that goroutines only call Aggregate
+		type call struct {
+			ss        encryption.SignatureScheme
+			idx       int
+			sig, hash string
+		}
+		var calls []call
+		for _, i := range order {
+			ss, err := w.verifierShared(items[i].Key)
 			if err != nil {
 				code, callerCode = 1, 1
 				return
 			}
-			if err := agg.Aggregate(ss, i, w.sigHex(it.Sig), w.msg(it.Msg)); err != nil {
-				code, callerCode = 1, 1
-				return
+			calls = append(calls, call{ss, i, w.sigHex(items[i].Sig), w.msg(items[i].Msg)})
+		}
+		failed := false
+		if concurrent && bs > 0 {
+			var wg sync.WaitGroup
+			var mu sync.Mutex
+			byBatch := map[int][]call{}
+			for _, c := range calls {
+				byBatch[c.idx/bs] = append(byBatch[c.idx/bs], c)
 			}
+			var pnc string
+			for _, cs := range byBatch {
+				wg.Add(1)
+				go func(cs []call) {
+					defer wg.Done()
+					p := safely(func() {
+						for _, c := range cs {
+							if err := agg.Aggregate(c.ss, c.idx, c.sig, c.hash); err != nil {
+								mu.Lock()
+								failed = true
+								mu.Unlock()
+							}
+						}
+					})
+					if p != "" {
+						mu.Lock()
+						pnc = p
+						mu.Unlock()
+					}
+				}(cs)
+			}
+			wg.Wait()
+			if pnc != "" {
+				panic(pnc)
+			}
+		} else {
+			for _, c := range calls {
+				if err := agg.Aggregate(c.ss, c.idx, c.sig, c.hash); err != nil {
+					failed = true
+					break
+				}
+			}
+		}
+		if failed {
+			code, callerCode = 1, 1
+			return
 		}
 		ok, err := agg.Verify()
 		code, callerCode = 1, 1
@@ -339,13 +402,34 @@ func genHist(h *c32Hist, r *vh.Rand) {
 	}
 }
 
+// subInput keeps the items with the given (ascending) indices and the relative call order among them.
+func subInput(in c32Input, keep []int) c32Input {
+	in2 := in
+	in2.Items = nil
+	pos := map[int]int{}
+	for k, i := range keep {
+		pos[i] = k
+		in2.Items = append(in2.Items, in.Items[i])
+	}
+	in2.Order = nil
+	if len(in.Order) == len(in.Items) {
+		for _, i := range in.Order {
+			if k, ok := pos[i]; ok {
+				in2.Order = append(in2.Order, k)
+			}
+		}
+	}
+	return in2
+}
+
 func genAgg(in *c32Input, r *vh.Rand) {
 	in.NKeys = 4
 	patterns := []string{"none", "none", "single", "foreign-key", "cancel2", "cancel2", "cancel3", "swap", "rogue", "dup-item", "wrong-msg",
 		"zero-neg-sum", "zero-neg-sum", "zero-arbitrary", "zero-single", "off-by-point",
+		"single", "single", "multi-single",
 		"dupv-valid-then-other-block", "dupv-valid-then-other-key", "dupv-valid-then-padding", "dupv-invalid-then-valid", "dupv-all-valid"}
 	in.Pattern = patterns[r.Intn(len(patterns))]
-	n := r.Range(1, 9)
+	n := r.Range(1, 12)
 	sameMsg := r.Chance(1, 3)
 	if in.Pattern == "rogue" || strings.HasPrefix(in.Pattern, "dupv-") {
 		sameMsg = true // tickets: every verifier signs the same block hash
@@ -382,6 +466,14 @@ func genAgg(in *c32Input, r *vh.Rand) {
 	switch in.Pattern {
 	case "single":
 		in.Items[i].Sig = append(in.Items[i].Sig, d(c))
+	case "multi-single":
+		// several independently corrupted entries (different foreign points: nothing can cancel)
+		for x, idx := range r.Perm(n) {
+			if x >= 3 {
+				break
+			}
+			in.Items[idx].Sig = append(in.Items[idx].Sig, pterm{sscalar{{c + int64(x), -1}}, 30 + x})
+		}
 	case "foreign-key":
 		kk := (in.Items[i].Key[0].K + 1) % in.NKeys
 		in.Items[i].Sig = genuine(kk, in.Items[i].Msg)
@@ -474,12 +566,28 @@ func genAgg(in *c32Input, r *vh.Rand) {
 	}
 	n = len(in.Items)
 	in.BS = []int{1, 2, 3, 5, n, n + 3, 64}[r.Intn(7)]
+	if r.Chance(1, 2) {
+		in.BS = r.Range(1, n+1)
+	}
+	// order of the Aggregate calls: ascending, descending, random; sometimes one goroutine per batch
+	switch r.Intn(5) {
+	case 0, 1:
+		in.Order = nil
+	case 2:
+		in.Order = make([]int, n)
+		for x := range in.Order {
+			in.Order[x] = n - 1 - x
+		}
+	default:
+		in.Order = r.Perm(n)
+	}
+	in.Concurrent = r.Chance(1, 4)
 }
 
 func runC32(o vh.Opts) {
 	initEnv()
 	rep := vh.NewReport("hash", "C32", o)
-	rep.Rule = "1-10 signatures over 4 keys, distinct messages (transaction batches) or one message (tickets), batch sizes 1,2,3,5,n,n+3,64; " +
+	rep.Rule = "1-12 signatures over 4 keys, distinct messages (transaction batches) or one message (tickets), batch sizes 1..n+1 and 64; Aggregate called in ascending, descending or random index order, sometimes one goroutine per batch; " +
 		"corruption patterns: none, one corrupted, foreign key, wrong message, two and three cancelling perturbations, swapped signatures, rogue key, " +
 		"repeated item, repeated verifier in a ticket set (first valid then signed over another block / by another key / padding; first invalid then valid; all valid), non-cancelling pair, signatures summing to the identity (one = minus the sum of the others; arbitrary points; the identity alone); " +
 		"Verify judged both by its bool and by err only (what the callers look at); plus histories of 2-7 verifications in sequence over the SAME " +
@@ -523,7 +631,7 @@ func runC32(o vh.Opts) {
 			}
 		}
 		n := dim(in.Items)
-		code, callerCode := aggDirect(w, in.Items, in.BS)
+		code, callerCode := aggDirectOrder(w, in.Items, in.BS, in.Order, in.Concurrent)
 		judge("direct", code)
 		judge("direct-err-only", callerCode)
 		if code != callerCode {
@@ -568,22 +676,14 @@ func runC32(o vh.Opts) {
 	handle := func(in c32Input, toCoq bool) {
 		fail := evaluate(in, true, toCoq)
 		corrupted := in.Pattern != "none" && in.Pattern != "dup-item"
-		rep.Case(fmt.Sprintf("%v/%d", in.Items, in.BS), len(in.Items) >= 2 && (corrupted || in.BS < len(in.Items)), in)
+		rep.Case(fmt.Sprintf("%v/%d/%v/%v", in.Items, in.BS, in.Order, in.Concurrent), len(in.Items) >= 2 && (corrupted || in.BS < len(in.Items)), in)
 		if fail != "" {
 			keep := vh.ShrinkIdx(len(in.Items), func(keep []int) bool {
-				in2 := in
-				in2.Items = nil
-				for _, i := range keep {
-					in2.Items = append(in2.Items, in.Items[i])
-				}
+				in2 := subInput(in, keep)
 				return len(in2.Items) > 0 && evaluate(in2, false, false) == fail
 			})
-			in2 := in
-			in2.Items = nil
-			for _, i := range keep {
-				in2.Items = append(in2.Items, in.Items[i])
-			}
-			rep.Violate(fail, fmt.Sprintf("aggregate verification (%s, batch size %d) disagrees with the individual checks", in.Pattern, in.BS), in2)
+			in2 := subInput(in, keep)
+			rep.Violate(fail, fmt.Sprintf("aggregate verification (%s, batch size %d, call order %v, concurrent %v) disagrees with the individual checks", in.Pattern, in.BS, in2.Order, in2.Concurrent), in2)
 		}
 	}
 
